@@ -35,11 +35,11 @@ type PropRound struct {
 	Unlocks      int     `json:"unlocks"`
 	Mempool      []MemTx `json:"mempool,omitempty"`
 	Stale        int     `json:"stale,omitempty"` // honest rounds: 1 = mempool txs expire before the proposal is built, 2 = their sequence is consumed by another tx first
-	Mut          int     `json:"mut"` // 0 = honest round with the real proposal builder; > 0 = mutation kind
+	Mut          int     `json:"mut"`             // 0 = honest round with the real proposal builder; > 0 = mutation kind
 	// Prime (deviation rounds): every node first verifies the well-formed proposal of this height (a round that is
 	// accepted but never decided), then sees the deviating one
 	Prime bool `json:"prime,omitempty"`
-	Arg          int     `json:"arg"`
+	Arg   int  `json:"arg"`
 }
 
 type PropCase struct {
@@ -56,13 +56,13 @@ var propMutNames = []string{"honest", "no-txs", "17-txs", "first-not-block-msg",
 	"fee-recipient-padded", "parent-hash-padded", "beacon-root-padded"}
 
 type propWorld struct {
-	c       *world.Cluster
-	vf      *voteFixture
-	nextID  uint64
-	nextWd  uint64
-	btcTip  uint64
-	salt    uint64
-	elHist  []common.Hash // execution heads, oldest first
+	c      *world.Cluster
+	vf     *voteFixture
+	nextID uint64
+	nextWd uint64
+	btcTip uint64
+	salt   uint64
+	elHist []common.Hash // execution heads, oldest first
 }
 
 func newPropWorld(high bool) (*propWorld, error) {
